@@ -91,7 +91,12 @@ func (f *frame) execInstr(in ssa.Instruction, st *State, reach string) error {
 			}
 			if !isLiteral(iv.L[0]) || at.Len() > maxArrayLen {
 				x.safeCond(And("(<= 0 "+iv.L[0]+")", fmt.Sprintf("(< %s %d)", iv.L[0], at.Len())), reach, in.Pos(), "index-bounds")
-				f.set(in, x.unsup("dynamic index into array", in.Type(), st, reach))
+				// the element's address is never nil once the index is in range; what it holds is unknown
+				uv := x.unsup("dynamic index into array", in.Type(), st, reach)
+				if len(uv.L) == 1 {
+					x.sc.Assume(reach, Not(Eq(uv.L[0], "0")))
+				}
+				f.set(in, uv)
 				return nil
 			}
 			f.set(in, Val{Typ: in.Type(), L: []string{c.obj}, Ptr: &PtrInfo{Root: c.root, Elem: c.elem, Idx: c.idx, Path: joinPath(c.prefix, "["+iv.L[0]+"]")}})
